@@ -30,13 +30,13 @@ pub static DEF: PropDef = PropDef {
 
 fn cases(t: Tier) -> u64 {
   match t {
-    Tier::Quick => 4_000,
+    Tier::Quick => 12_000,
     Tier::Thorough => 600_000,
   }
 }
 
 fn required(s: &Summary) -> Option<String> {
-  if s.c("model_accept") < 2000 || s.c("model_reject") < 2000 {
+  if s.c("model_accept") < 5000 || s.c("model_reject") < 5000 {
     return Some(format!("accept {} reject {}", s.c("model_accept"), s.c("model_reject")));
   }
   None
@@ -128,17 +128,27 @@ fn run(ctx: &mut Ctx, _idx: u64) {
     let dir = if i { "false-accept" } else { "false-reject" };
     ctx.count(&format!("disagree:{}", dir));
     let want_impl = i;
-    let (sg, sv) = vcore::shrink_pair(&g, v, 2500, &mut |cg, cv| {
-      if !cv.is_json() {
-        return false;
-      }
-      let mm = vcore::model(cg, cv, true);
-      if mm == Tri::Unspec || (mm == Tri::Acc) == want_impl {
-        return false;
-      }
-      vcore::impl_json(&vcore::schema_text(cg), cv) == Some(want_impl)
-    });
+    let known = |cg: &GS, cv: &DV| ctx.known_score(&vcore::sig_of(dir, cg, cv));
+    let (sg, sv) = vcore::shrink_pair(
+      &g,
+      v,
+      4000,
+      &mut |cg, cv| {
+        if !cv.is_json() {
+          return false;
+        }
+        let mm = vcore::model(cg, cv, true);
+        if mm == Tri::Unspec || (mm == Tri::Acc) == want_impl {
+          return false;
+        }
+        vcore::impl_json(&vcore::schema_text(cg), cv) == Some(want_impl)
+      },
+      &known,
+    );
     let sig = vcore::sig_of(dir, &sg, &sv);
+    if std::env::var("VH_DEBUG").is_ok() {
+      eprintln!("DBG {} | {} | {} || {} | {}", dir, vcore::schema_text(&sg).trim().replace('\n', " ; "), sv.to_json(), st.trim().replace('\n', " ; "), v.to_json());
+    }
     ctx.report(&sig, json!({"schema": st, "json": v.to_json(), "model": m.name(), "implementation": if i {"Ok"} else {"Err(Validation)"}, "shrunk_schema": vcore::schema_text(&sg), "shrunk_json": sv.to_json()}));
   }
   for t in &tags {
